@@ -559,6 +559,36 @@ func run(sc *Scenario, diag bool) (res Result) {
 		e.cancel()
 	}
 	post := build(e)
+	var twin *env
+	var twinPost func() string
+	if sc.Twin && !sc.timed() && len(sc.In) > 0 {
+		t2 := *sc
+		t2.Script, t2.PreCancel, t2.Gated, t2.Prefill, t2.NoFinish, t2.Twin = nil, false, false, 0, false, false
+		t2.In = nil
+		for i, in := range sc.In {
+			shifted := make([]int, len(in))
+			for j, x := range in {
+				shifted[j] = x + 500
+				if sc.Stage == "join" {
+					shifted[j] = i*1000 + 500 + j
+				}
+			}
+			t2.In = append(t2.In, shifted)
+		}
+		t2.Fail = nil
+		for _, f := range sc.Fail {
+			t2.Fail = append(t2.Fail, f+500)
+		}
+		twin = &env{sc: &t2, calls: map[int]int{}, errs: map[int]*stageErr{}, envStop: e.envStop, start: e.start}
+		twin.ctx, twin.cancel = context.WithCancel(context.Background())
+		twinPost = build(twin)
+		for i := range twin.in {
+			twin.closedIn[i] = true
+			twin.next[i] = len(t2.In[i])
+			twin.hand(i, t2.In[i], true)
+		}
+		defer twin.cancel()
+	}
 	fail := func(m string) Result {
 		// release everything the harness owns so that the bubble can end
 		res.Msg = m
@@ -593,6 +623,22 @@ func run(sc *Scenario, diag bool) (res Result) {
 	}
 	res.MaxInflight, res.Reordered = e.maxInflight, e.reordered
 	e.openGates()
+	if twin != nil {
+		// the independent second instance must complete as if it were alone, whatever happened to the first
+		if msg := twin.fair(idle, nil); msg != "" {
+			return fail("twin instance (own input, own context): " + msg)
+		}
+		for _, p := range twin.ports {
+			if !p.closed {
+				return fail(fmt.Sprintf("twin instance (own input, own context, never cancelled): %q does not close; delivered %v", p.name, p.delivered))
+			}
+		}
+		if twinPost != nil {
+			if msg := twinPost(); msg != "" {
+				return fail("twin instance (own input, own context): " + msg)
+			}
+		}
+	}
 
 	if !e.cancelled && !sc.NoFinish && sc.generator() {
 		// generators run until cancelled: a fair consumer takes N deliveries (or sees both channels close under fail-fast)
